@@ -3,6 +3,7 @@ package main
 // Concurrency properties: C12 (Solutions.tla, SolutionsImpl.tla), C13 (Cancel.tla), C14 (Isolation.tla).
 
 import (
+	"os"
 	"path/filepath"
 	"strconv"
 	"strings"
@@ -108,4 +109,40 @@ func (c *checkCtx) wallClockCancel() {
 	c.vhRun("gen", "cancelwall", "--seed", strconv.FormatInt(c.seed, 10), "--n", strconv.Itoa(n), "--out", gen)
 	cases, results := c.replay("cancelwall", gen, replayOpts{timeout: 30e9, opts: map[string]string{"tmp": c.work}})
 	c.judge("cancelwall", cases, results, func(cs, res map[string]J) string { in, _ := res["input"].(string); return in })
+}
+
+func init() {
+	plans["C14"] = &plan{
+		level: "model_checking",
+		race:  true,
+		rule: "(design) Isolation.tla - 3 goroutines interning atoms, reading atom names and drawing variables at the granularity lock / look up / write map / append name / unlock, read lock / read / unlock, " +
+			"atomic add - model-checked for Interned, TableOK, NoTornRead, VarsOnce; without the lock and without the atomic add TLC must find counterexamples. IsolationVM.tla: an action of one interpreter changes " +
+			"only that interpreter (Isolated). (binding, harness built with -race, a race report kills the worker) every history of N state-changing directives on interpreters A and B over 12 per-interpreter fields " +
+			"(clauses by assert / consult / dynamic, operators, 4 flags, character conversion, stream alias, current output, current input) generated by TLC is executed sequentially and concurrently and every " +
+			"field is then observed on A, B and an untouched control interpreter; 2..8 interpreters run generated programs concurrently and each must produce the answers, error and output it produces alone; the " +
+			"log of the hook inside NewAtom's critical section is validated by TLC against IsolationTrace.tla. distinct_nontrivial = distinct histories / program sets",
+		assume:  []string{"the race detector only reports races on the schedules that occur; GOMAXPROCS is the machine's"},
+		trusted: []string{"TLC", "Isolation*.tla", "Go race detector"},
+		run: func(c *checkCtx) {
+			c.mcHolds("Isolation", "Isolation_mc.cfg", tlcOpts{})
+			c.mcMustFail("Isolation", "Isolation_neg_lock.cfg", tlcOpts{workers: 4})
+			c.mcMustFail("Isolation", "Isolation_neg_add.cfg", tlcOpts{workers: 4})
+			r := c.mcHolds("IsolationVM", "IsolationVM_"+c.tier+".cfg", tlcOpts{workers: 4})
+			os.Setenv("GORACE", "halt_on_error=1")
+			cases, results := c.replay("isovm", r.cases, replayOpts{timeout: 60e9, opts: map[string]string{"tmp": c.work}})
+			c.judge("isovm", cases, results, func(cs, res map[string]J) string { in, _ := res["input"].(string); return in })
+			n := 40
+			if c.tier == "thorough" {
+				n = 500
+			}
+			gen := filepath.Join(c.work, "isoconc.ndjson")
+			c.vhRun("gen", "isoconc", "--seed", strconv.FormatInt(c.seed, 10), "--n", strconv.Itoa(n), "--out", gen)
+			// one worker: the interning log belongs to one process, and the programs inside a case already run concurrently
+			// generated programs may create cyclic terms or explode (ISO: undefined); only a race report is attributable to C14
+			c.crashDiscard = func(status, detail string) bool { return !strings.Contains(detail, "DATA RACE") }
+			traces := c.recordTracesInit("isoconc", gen, replayOpts{timeout: 120e9, workers: 4})
+			c.validateTraces("isoconc", "IsolationTrace", "IsolationTrace.cfg", traces, traceOpts{batches: 4})
+			c.exhaustive = false
+		},
+	}
 }
